@@ -19,48 +19,37 @@ REFS = ["direct", "opt", "list", "dict", "tuple", "optlist"]
 
 
 def gen_family(rng: random.Random, k: int) -> dict:
-    """A spanning tree over the classes (parent -> child edges, any wrapper) plus back edges to
-    ancestors or self.  Every class is reachable from its ancestors by exactly one path and no
-    class holds two fields with the same target: apischema's *sequential* recursion analysis is
-    unsound when a second path reaches a node that was cached earlier in the same analysis
-    (see DESIGN 12.2), and the C20 workload must stay clear of that sequential defect."""
-    m = rng.randint(2, 5)
+    """A spanning tree over the classes (parent -> child edges through any wrapper), optional
+    self loops, and at most one back edge into the root: every class has at most one incoming
+    edge from another class.
+
+    The restriction is deliberate.  apischema's *sequential* recursion analysis is unsound as
+    soon as a node already cached earlier in the same analysis is reached again by a second
+    path while one of its ancestors is still being visited (the skipped subtree hides the cycle,
+    the wrapper on the second path is recorded "not recursive" and the next compilation through
+    it recurses forever).  That is a sequential defect outside C20 (DESIGN 12.2); with it the
+    result of a call depends on which type was used first, so such shapes cannot serve as a
+    workload whose oracle is "what the call returns sequentially"."""
+    m = rng.randint(2, 6)
     names = ["G%d_%d" % (k, i) for i in range(m)]
-    style = rng.choice(["cyclic", "cyclic", "cyclic", "self", "dag", "nested"])
+    style = rng.choice(["ring", "ring", "ring", "self", "tree", "chain"])
     parent = [None] + [rng.randrange(i) for i in range(1, m)]
-    if style == "nested":  # a chain, so that back edges nest
+    if style == "chain":
         parent = [None] + list(range(m - 1))
-    ancestors = []
-    for i in range(m):
-        a, p = [], parent[i]
-        while p is not None:
-            a.append(p)
-            p = parent[p]
-        ancestors.append(a)
+    back_from = rng.randrange(1, m) if style in ("ring", "chain") else None
+    back_kinds = [x for x in REFS if x != "direct"]
     classes = []
     for i, n in enumerate(names):
         fields = []
         for j in range(rng.randint(1, 2)):
             fields.append(["s%d" % j, rng.choice(SCALARS), None])
-        targets = set()
         for c in range(m):
             if parent[c] == i:
                 fields.append(["c%d" % c, rng.choice(REFS), c])
-                targets.add(c)
-        back_kinds = [x for x in REFS if x != "direct"]
-        if style in ("cyclic", "nested"):
-            cands = [i] + ancestors[i]
-            rng.shuffle(cands)
-            for t in cands[: rng.choice([0, 1, 1, 2])]:
-                if t not in targets:
-                    fields.append(["b%d" % t, rng.choice(back_kinds), t])
-                    targets.add(t)
-            if i == m - 1 and not any(f[2] is not None and f[2] <= i and f[0].startswith("b") for f in fields):
-                t = rng.choice(cands)
-                if t not in targets:
-                    fields.append(["b%d" % t, rng.choice(back_kinds), t])
-        elif style == "self" and rng.random() < 0.7:
-            fields.append(["b%d" % i, rng.choice(back_kinds), i])
+        if back_from == i:
+            fields.append(["b0", rng.choice(back_kinds), 0])
+        if style != "tree" and rng.random() < (0.7 if style == "self" else 0.25):
+            fields.append(["me", rng.choice(back_kinds), i])
         classes.append({"name": n, "fields": fields})
     return {"k": k, "names": names, "classes": classes, "style": style}
 
@@ -258,7 +247,7 @@ def build(seed: int, n: int, pool) -> dict:
         pool.reg("Opt_" + c0, TOptional[cls0], [None, d0], [lambda: None, v0], group)
         pool.reg("Dict_" + c0, TDict[str, cls0], [{"a": d0}], [lambda v0=v0: {"a": v0()}], group)
     info = {"seed": seed, "families": n, "families_dropped_sequentially_unsound": [f["k"] for f in dropped], "classes": sum(len(f["classes"]) for f in fams),
-            "styles": {s: sum(1 for f in fams if f["style"] == s) for s in ("cyclic", "self", "dag", "nested")},
+            "styles": {s: sum(1 for f in fams if f["style"] == s) for s in ("ring", "self", "tree", "chain")},
             "source_len": len(src)}
     BUILT[key] = info
     return info
